@@ -89,11 +89,11 @@ def config_meaningful(spec, cfgs):
         if c.get("map") in ("prefix", "dup") and n < 2:
             return "map variant needs two fields"
     if spec["kind"] == "typeddict":
-        if schema["as_list"] or any(m.startswith("idx") for m in schema["map"]):
+        if schema["as_list"] or any(m.startswith("idx") for m in schema["map"] + schema["map_tail"]):
             return "TypedDict fields are ordered alphabetically by the introspection, not by definition (list positions UNSPEC)"
         notreq = any(f[2] != "req" for f in spec["fields"])
         uses_type = any(isinstance(schema[k], (list, tuple)) and schema[k][0] == "type" for k in ("skip", "only", "omit_default")) \
-            or "pairs_int" in schema["map"]
+            or "pairs_int" in schema["map"] + schema["map_tail"]
         if notreq and uses_type:
             return "type predicates on NotRequired[...] TypedDict items (UNSPEC: the item type is the NotRequired form)"
     return None
